@@ -32,6 +32,7 @@ import (
 	"github.com/gogo/protobuf/proto"
 	"github.com/grafana/dskit/kv"
 	"github.com/grafana/dskit/kv/consul"
+	"github.com/grafana/dskit/kv/memberlist"
 	"github.com/grafana/dskit/ring"
 	"github.com/grafana/dskit/services"
 )
@@ -443,7 +444,7 @@ func (w *world) fresh() (*ring.Ring, func()) {
 	}
 	var d *ring.Desc
 	if v != nil {
-		d = v.(*ring.Desc)
+		d = proto.Clone(v.(*ring.Desc)).(*ring.Desc) // a deep copy: nothing shared with the store or the long-lived client
 	}
 	cfg := w.cfg
 	cfg.SubringCacheDisabled = true
@@ -1306,6 +1307,19 @@ func (w *world) pstep(kind string, full bool) {
 	w.pbatch(full)
 }
 
+// runBubble runs one history inside a synctest bubble; a panic of the driver ends the history and is
+// reported as infrastructure trouble (never as a verdict).
+func runBubble(t *testing.T, rc *recorder, f func(t *testing.T)) {
+	synctest.Test(t, func(t *testing.T) {
+		defer func() {
+			if r := recover(); r != nil && rc.res.Fatal == "" {
+				rc.res.Fatal = fmt.Sprintf("driver panic: %v", r)
+			}
+		}()
+		f(t)
+	})
+}
+
 func (rc *recorder) reset(h int, za bool, rf, lru int, conc bool) {
 	must(rc.ti.Write(map[string]any{"e": "R", "h": h, "za": za, "rf": rf, "conc": conc}))
 	must(rc.tp.Write(map[string]any{"e": "R", "h": h, "lru": lru}))
@@ -1320,7 +1334,7 @@ type histCfg struct {
 // systematic: prime the caches, apply one update of the given kind, ask everything; then a
 // heartbeat-only update and everything again (cached subrings must refresh), then once more.
 func systematic(t *testing.T, rc *recorder, h int, seed int64, hc histCfg, kind, pkind string) {
-	synctest.Test(t, func(t *testing.T) {
+	runBubble(t, rc, func(t *testing.T) {
 		rnd := rand.New(rand.NewSource(seed))
 		if rc.epoch == 0 {
 			rc.epoch = time.Now().Unix()
@@ -1350,7 +1364,7 @@ func systematic(t *testing.T, rc *recorder, h int, seed int64, hc histCfg, kind,
 }
 
 func random(t *testing.T, rc *recorder, h int, seed int64, hc histCfg, steps int) {
-	synctest.Test(t, func(t *testing.T) {
+	runBubble(t, rc, func(t *testing.T) {
 		rnd := rand.New(rand.NewSource(seed))
 		if rc.epoch == 0 {
 			rc.epoch = time.Now().Unix()
@@ -1460,7 +1474,7 @@ func safe(f func(r *ring.Ring) string, r *ring.Ring) (s string) {
 // concurrent: readers hammer the long-lived client while one update is delivered; every answer
 // must be the fresh answer for the descriptor before or after that update.
 func concurrent(t *testing.T, rc *recorder, h int, seed int64, hc histCfg, rounds, readers int) {
-	synctest.Test(t, func(t *testing.T) {
+	runBubble(t, rc, func(t *testing.T) {
 		rnd := rand.New(rand.NewSource(seed))
 		if rc.epoch == 0 {
 			rc.epoch = time.Now().Unix()
@@ -1564,7 +1578,7 @@ func concurrent(t *testing.T, rc *recorder, h int, seed int64, hc histCfg, round
 // quiescence; the reader is released (it fills, or must refuse to fill, the cache); then the same
 // query is asked again on the long-lived client and compared with a fresh client.
 func gated(t *testing.T, rc *recorder, h int, seed int64, hc histCfg, kinds []string) {
-	synctest.Test(t, func(t *testing.T) {
+	runBubble(t, rc, func(t *testing.T) {
 		rnd := rand.New(rand.NewSource(seed))
 		if rc.epoch == 0 {
 			rc.epoch = time.Now().Unix()
@@ -1674,6 +1688,134 @@ func gated(t *testing.T, rc *recorder, h int, seed int64, hc histCfg, kinds []st
 }
 
 // ---------------------------------------------------------------------------------------------
+// ring client over the gossip KV: the long-lived ring.Ring watches a detached memberlist KV; updates
+// are made on a peer node and arrive as in-place merges through NotifyMsg / MergeRemoteState. The
+// values handed to the ring are shallow clones of the node's store that share token storage with
+// earlier values (RingCompare has a same-storage fast path); the fresh client gets a deep copy.
+// ---------------------------------------------------------------------------------------------
+
+func newGossipNode(name string) (*memberlist.KV, kv.Client) {
+	var cfg memberlist.KVConfig
+	cfg.Codecs = append(cfg.Codecs, ring.GetCodec())
+	cfg.NodeName = name
+	cfg.RetransmitMult = 2
+	cfg.LeftIngestersTimeout = time.Hour
+	cfg.NotifyInterval = 0
+	cfg.WatchPrefixBufferSize = 128
+	mkv := memberlist.NewDetachedKVForVerif(cfg, log.NewNopLogger(), func() int { return 2 })
+	if err := services.StartAndAwaitRunning(context.Background(), mkv); err != nil {
+		panic(err)
+	}
+	cli, err := memberlist.NewClient(mkv, ring.GetCodec())
+	if err != nil {
+		panic(err)
+	}
+	return mkv, cli
+}
+
+func gossip(t *testing.T, rc *recorder, h int, seed int64, hc histCfg, steps int) {
+	runBubble(t, rc, func(t *testing.T) {
+		rnd := rand.New(rand.NewSource(seed))
+		if rc.epoch == 0 {
+			rc.epoch = time.Now().Unix()
+		}
+		rc.reset(h, hc.za, hc.rf, hc.lru, false)
+		w := &world{rc: rc, rnd: rnd, nextAddr: 1,
+			prevPlain: map[[2]int]ring.ReadRing{}, prevLb: map[[3]int]ring.ReadRing{},
+			prevPP: map[[2]int]*ring.PartitionRing{}, prevPL: map[[3]int]*ring.PartitionRing{}}
+		w.cfg = ring.Config{HeartbeatTimeout: hbTimeout, ReplicationFactor: hc.rf, ZoneAwarenessEnabled: hc.za}
+		longKV, longCli := newGossipNode("long")
+		peerKV, peerCli := newGossipNode("peer")
+		w.store = &countingKV{Client: longCli}
+		var err error
+		w.long, err = ring.NewWithStoreClientAndStrategy(w.cfg, "long", ringKey, w.store, ring.NewDefaultReplicationStrategy(), nil, log.NewNopLogger())
+		must(err)
+		must(services.StartAndAwaitRunning(context.Background(), w.long))
+		defer func() {
+			_ = services.StopAndAwaitTerminated(context.Background(), w.long)
+			_ = services.StopAndAwaitTerminated(context.Background(), longKV)
+			_ = services.StopAndAwaitTerminated(context.Background(), peerKV)
+			synctest.Wait()
+		}()
+		w.latest = ring.NewDesc()
+		synctest.Wait()
+		// what the long node's store holds now, as a deep copy
+		content := func() *ring.Desc {
+			v, err := w.store.Get(context.Background(), ringKey)
+			must(err)
+			if v == nil {
+				return ring.NewDesc()
+			}
+			return proto.Clone(v.(*ring.Desc)).(*ring.Desc)
+		}
+		for s := 0; s < steps; s++ {
+			w.tick()
+			time.Sleep(time.Second) // merges only accept strictly newer heartbeats
+			synctest.Wait()
+			// the peer changes the ring the way lifecyclers do: every touched instance gets a newer heartbeat
+			base := content()
+			w.latest = base
+			kind := updateKinds[rnd.Intn(len(updateKinds))]
+			if rnd.Intn(3) == 0 {
+				kind = []string{"heartbeat", "heartbeat_all", "state"}[rnd.Intn(3)]
+			}
+			nd, k := w.mutateFrom(base, kind)
+			for id, ing := range nd.Ingesters {
+				old, ok := base.Ingesters[id]
+				if !ok || !proto.Equal(&old, &ing) {
+					ing.Timestamp = w.now()
+					nd.Ingesters[id] = ing
+				}
+			}
+			for id, old := range base.Ingesters { // leaving the ring = a LEFT tombstone
+				if _, ok := nd.Ingesters[id]; !ok && k != "equal" {
+					old.State = ring.LEFT
+					old.Timestamp = w.now()
+					nd.Ingesters[id] = old
+				}
+			}
+			before := w.store.delivered.Load()
+			via := rnd.Intn(3)
+			// a CAS whose merge changes nothing is refused by the memberlist client ("no change detected")
+			noChange := func(err error) {
+				if err != nil && !strings.Contains(err.Error(), "no change detected") {
+					panic(err)
+				}
+			}
+			if via == 0 { // a CAS on the long node itself (local merge)
+				noChange(w.store.CAS(context.Background(), ringKey, func(any) (any, bool, error) { return proto.Clone(nd), false, nil }))
+			} else {
+				// make the peer know what the long node knows, then change it there
+				peerKV.MergeRemoteState(longKV.LocalState(false), false)
+				synctest.Wait()
+				_ = peerKV.GetBroadcasts(0, 1<<24)
+				noChange(peerCli.CAS(context.Background(), ringKey, func(any) (any, bool, error) { return proto.Clone(nd), false, nil }))
+				synctest.Wait()
+				if via == 1 { // gossip messages
+					for _, msg := range peerKV.GetBroadcasts(0, 1<<24) {
+						longKV.NotifyMsg(msg)
+					}
+				} else { // push/pull
+					longKV.MergeRemoteState(peerKV.LocalState(false), false)
+				}
+			}
+			synctest.Wait()
+			if w.store.delivered.Load() == before { // nothing new for the long node: no notification
+				continue
+			}
+			w.latest = content()
+			w.logUpdate("multi", w.latest, "U") // the class is whatever the merge result amounts to
+			w.lastKind = k
+			w.batch(false)
+			if rnd.Intn(4) == 0 {
+				w.tick()
+				w.batch(false)
+			}
+		}
+	})
+}
+
+// ---------------------------------------------------------------------------------------------
 
 func TestRecord(t *testing.T) {
 	ti, tp, recs := os.Getenv("VERIF_TRACE_I"), os.Getenv("VERIF_TRACE_P"), os.Getenv("VERIF_RECS")
@@ -1732,6 +1874,11 @@ func TestRecord(t *testing.T) {
 			kinds := []string{"token", "heartbeat_all", "remove", "equal", "add", "state", "addr", "zone", "hbstate", "reg", "ro_both", "heartbeat", "replace", "ro_time", "ro_flag", "multi"}
 			rnd.Shuffle(len(kinds), func(a, b int) { kinds[a], kinds[b] = kinds[b], kinds[a] })
 			gated(t, rc, h, seed*1000003+int64(h), hc, kinds)
+		}
+		for i := 0; i < abs.EnvInt("VERIF_GOSSIP", 2); i++ {
+			h++
+			hc := histCfg{za: rnd.Intn(2) == 0, rf: 1 + rnd.Intn(3), lru: 0}
+			gossip(t, rc, h, seed*1000003+int64(h), hc, 15+rnd.Intn(16))
 		}
 		res.AddExtra("histories", h)
 	}()
